@@ -4,14 +4,14 @@ namespace CalmVerif.TokenAdj
 
 set_option maxRecDepth 1000000 in
 theorem direct_safe_min1_forced :
-    withCert Gen.Rules.rs_minify1 Gen.Defs.definitions 4
-      (fun c => directOK (allNeedsF (mkCtx Gen.Rules.rs_minify1 c) Gen.Defs.definitions)) = true := by decide +kernel
+    withCtx Gen.Rules.rs_minify1 Gen.Defs.definitions 4 (fun cx => forceRects (allNeedsF cx Gen.Defs.definitions) fun F => directOK F) = true := by
+  decide +kernel
 
 /-- D: every two token signatures that can be printed with nothing between them under this rule set are
 boundary-safe, except KF-01 (and the two artefacts of the abstraction) -/
 theorem direct_safe_min1 : directOK followMin1 = true := by
   have h := direct_safe_min1_forced
-  rw [withCert_eq, allNeedsF_eq] at h
+  rw [withCtx_eq, forceRects_eq, allNeedsF_eq] at h
   exact h
 
 end CalmVerif.TokenAdj
